@@ -145,8 +145,10 @@ def _native_outcome(h, inputs):
         return ("replay-missing", str(e))
     except AssertionError as e:
         line = None
+        specdir = os.path.dirname(specfile)
         for fs in traceback.extract_tb(e.__traceback__):
-            if os.path.abspath(fs.filename) == specfile:
+            # the assert that failed: the innermost frame inside a spec module (harnesses may be shared between specs)
+            if os.path.dirname(os.path.abspath(fs.filename)) == specdir:
                 line = fs.lineno
         if line is None:
             return ("escaped", "AssertionError")
